@@ -73,6 +73,11 @@ impl CliRun {
 
 /// run `scrut <args>` with cwd = sandbox docs directory; extra_env is added to a minimal environment
 pub fn run_scrut(sb: &Sandbox, args: &[&str], extra_env: &[(&str, String)], limit: Duration) -> CliRun {
+    run_scrut_observed(sb, args, extra_env, limit, &mut || {})
+}
+
+/// like `run_scrut`; `observe` runs after scrut has exited and before its left-over process group is killed
+pub fn run_scrut_observed(sb: &Sandbox, args: &[&str], extra_env: &[(&str, String)], limit: Duration, observe: &mut dyn FnMut()) -> CliRun {
     let mut cmd = Command::new(scrut_bin());
     cmd.args(args)
         .current_dir(&sb.docs)
@@ -109,6 +114,7 @@ pub fn run_scrut(sb: &Sandbox, args: &[&str], extra_env: &[(&str, String)], limi
         }
     };
     let wall = t0.elapsed();
+    observe();
     // whatever the run left behind in its process group is killed after the observation
     unsafe {
         libc::killpg(pid, libc::SIGKILL);
